@@ -590,19 +590,177 @@ fn do_format(src: &str, opts: FormatOptions) -> Fmt {
     }
 }
 
+/// Class predicates of the known formatter defects, evaluated on the source (see checks/c11.py).
+/// would should_chain_be_broken() force some chain of the program onto several lines?
+fn forced_chain_break(ast: &Ast, threshold: u8) -> bool {
+    for n in ast.nodes() {
+        if let Node::Chain((ChainNode::Root(_), first_next)) = &n.node {
+            if threshold == 0 {
+                return true;
+            }
+            let mut count = 0u32;
+            let mut last_access = false;
+            let mut next = *first_next;
+            while let Some(i) = next {
+                if let Node::Chain((cn, nn)) = &ast.node(i).node {
+                    match cn {
+                        ChainNode::Call { with_parens, .. } => {
+                            if !with_parens && nn.is_some() {
+                                return true;
+                            }
+                            if last_access {
+                                count += 1;
+                            }
+                            last_access = false;
+                        }
+                        ChainNode::Id(_) | ChainNode::Str(_) => last_access = true,
+                        ChainNode::Index(_) => {
+                            if last_access {
+                                count += 1;
+                            }
+                            last_access = false;
+                        }
+                        _ => last_access = false,
+                    }
+                    if count >= threshold as u32 {
+                        return true;
+                    }
+                    next = *nn;
+                } else {
+                    break;
+                }
+            }
+        }
+    }
+    false
+}
+
+/// (a) a comment in the middle of an expression: inside an open bracket / parenthesis / brace, or right
+/// after `=` / a binary operator / a comma;  (b) a bracketed literal that spans several lines and is
+/// continued by `.` (the root of a chain)
+fn comment_mid_expression(src: &str) -> (bool, bool) {
+    let mut depth = 0i32;
+    let mut mid = false;
+    let mut multi_line_root = false;
+    let mut last_sig: Option<Token> = None;
+    let mut open_lines: Vec<u32> = Vec::new();
+    let mut last_close_multiline = false;
+    for t in Lexer::new(src) {
+        match t.token {
+            Token::Whitespace | Token::NewLine => continue,
+            Token::CommentSingle | Token::CommentMulti => {
+                if depth > 0 {
+                    mid = true;
+                }
+                if let Some(p) = last_sig {
+                    use Token::*;
+                    if matches!(
+                        p,
+                        Assign | Add | Subtract | Multiply | Divide | Remainder | Power | And | Or | Equal | NotEqual
+                            | Less | LessOrEqual | Greater | GreaterOrEqual | Comma | Arrow | AddAssign | SubtractAssign
+                            | MultiplyAssign | DivideAssign | RemainderAssign | PowerAssign | Colon
+                    ) {
+                        mid = true;
+                    }
+                }
+                continue;
+            }
+            Token::Error => break,
+            Token::RoundOpen | Token::SquareOpen | Token::CurlyOpen => {
+                depth += 1;
+                open_lines.push(t.span.start.line);
+                last_close_multiline = false;
+            }
+            Token::RoundClose | Token::SquareClose | Token::CurlyClose => {
+                depth -= 1;
+                let open = open_lines.pop().unwrap_or(t.span.start.line);
+                last_close_multiline = open < t.span.start.line;
+            }
+            Token::Dot => {
+                if last_close_multiline {
+                    multi_line_root = true;
+                }
+                last_close_multiline = false;
+            }
+            _ => last_close_multiline = false,
+        }
+        last_sig = Some(t.token);
+    }
+    (mid, multi_line_root)
+}
+
+fn classes(src: &str, ast: &Ast) -> Value {
+    let mut wildcard = false;
+    let mut repr = false;
+    let check_str = |s: &AstString, repr: &mut bool| {
+        if let StringContents::Interpolated(nodes) = &s.contents {
+            for n in nodes {
+                if let StringNode::Expression { format, .. } = n {
+                    if format.representation.is_some() {
+                        *repr = true;
+                    }
+                }
+            }
+        }
+    };
+    for n in ast.nodes() {
+        match &n.node {
+            Node::Import { items, .. } if items.is_empty() => wildcard = true,
+            Node::Str(s) => check_str(s, &mut repr),
+            Node::Chain((ChainNode::Str(s), _)) => check_str(s, &mut repr),
+            _ => {}
+        }
+    }
+    // C11c: the formatter re-reads number literals, comments and #[fmt:skip] regions through
+    // FormatContext::source_slice (line offset + COLUMN as a byte index): wrong as soon as a character whose
+    // display width differs from its UTF-8 length (non-ASCII, or an ASCII control character such as a tab
+    // inside a comment or string) comes before such a token.  Formatting may join lines, so the class is
+    // taken file-wide: such a character exists, and so does a token that is re-read by span.
+    let odd_width = src.chars().any(|c| {
+        c != '\n' && c != '\r' && unicode_width::UnicodeWidthChar::width(c).unwrap_or(0) != c.len_utf8()
+    });
+    let mut has_sliced = src.contains("#[fmt:");
+    for t in Lexer::new(src) {
+        match t.token {
+            Token::Number | Token::CommentSingle | Token::CommentMulti => has_sliced = true,
+            Token::Error => break,
+            _ => {}
+        }
+    }
+    let sliced_after_non_ascii = odd_width && has_sliced;
+    let (mid, mlroot) = comment_mid_expression(src);
+    json!({"wildcard_import": wildcard, "repr_spec": repr, "sliced_after_non_ascii": sliced_after_non_ascii,
+           "comment_mid_expression": mid, "multi_line_chain_root": mlroot})
+}
+
 fn mode_fmt(case: &Value) -> Value {
     let src = case["src"].as_str().unwrap_or("").to_string();
     let run = case.get("run").and_then(|r| r.as_bool()).unwrap_or(false);
     let limit = case.get("limit_ms").and_then(|r| r.as_u64()).unwrap_or(1000);
     let opts = fmt_opts(case);
     let s2 = src.clone();
-    let parsed = guarded(move || Parser::parse(&s2).ok().map(|a| (dump(&a, false), dump(&a, true))));
-    let (strict_src, loose_src) = match parsed {
+    let parsed = guarded(move || {
+        Parser::parse(&s2).ok().map(|a| {
+            let mut c = classes(&s2, &a);
+            c["forced_chain_break"] = json!(forced_chain_break(&a, opts.chain_break_threshold));
+            (dump(&a, false), dump(&a, true), c)
+        })
+    });
+    let (strict_src, loose_src, cls) = match parsed {
         Ok(Some(x)) => x,
         Ok(None) => return json!({"parse_ok": false}),
         Err(msg) => return json!({"parse_ok": false, "parse_panic": msg}),
     };
-    let mut v = json!({"parse_ok": true});
+    let mut v = json!({"parse_ok": true, "classes": cls});
+    // C11d: does the formatter have to wrap?  (some line of the output at the widest setting is longer than
+    // the requested line_length)
+    {
+        let wide = FormatOptions { line_length: 255, ..opts };
+        if let Fmt::Ok(t) = do_format(&src, wide) {
+            let longest = t.lines().map(|l| unicode_width::UnicodeWidthStr::width(l)).max().unwrap_or(0);
+            v["classes"]["wrap_forced"] = json!(longest > opts.line_length as usize);
+        }
+    }
     match do_format(&src, opts) {
         Fmt::Err(e) => {
             v["fmt"] = json!("err");
